@@ -48,7 +48,92 @@ pub fn sections(ctx: &Ctx) -> Vec<(&'static str, u64)> {
         v.push((s, entries * chunks(ctx.tier)));
     }
     v.push(("w3-total", w3));
+    v.push(("scaling", SCALING_FAMILIES.len() as u64 * 3));
     v
+}
+
+/// Families of programs with one nesting / repetition parameter n. Compiled at n = 0, 4, 8, 16 the
+/// *additional* allocation events (the simulator's logical time) may grow polynomially, not
+/// exponentially: "within a time budget proportional to a small polynomial of the input size".
+pub const SCALING_FAMILIES: &[&str] = &[
+    "if", "if_nobrace", "block", "paren", "else_if", "call", "ternary", "macro_nest", "binop",
+    "casts", "macro_chain", "cond_nest", "include_chain", "include_repeat", "index", "unary",
+];
+
+pub fn scaling_source(family: &str, d: usize) -> FsSpec {
+    let rep = |s: &str| s.repeat(d);
+    let mut fs = FsSpec::new(crate::simfs::Policy::Flat);
+    let main = match family {
+        "if" => format!(
+            "void f(int x) {{\n{}x = 1;\n{}}}\n",
+            (0..d).map(|i| format!("if (x > {i}) {{\n")).collect::<String>(),
+            rep("}\n")
+        ),
+        "if_nobrace" => format!(
+            "void f(int x) {{\n{}x = 1;\n}}\n",
+            (0..d).map(|i| format!("if (x > {i})\n")).collect::<String>()
+        ),
+        "block" => format!("void f(int x) {{\n{}x = 1;\n{}}}\n", rep("{\n"), rep("}\n")),
+        "paren" => format!("void f(int x) {{ x = {}1{}; }}\n", rep("("), rep(")")),
+        "else_if" => format!(
+            "void f(int x) {{\n if (x == 0) {{}}\n{}}}\n",
+            (1..=d).map(|i| format!(" else if (x == {i}) {{}}\n")).collect::<String>()
+        ),
+        "call" => format!(
+            "int g(int a) {{ return a; }}\nvoid f(int x) {{ x = {}1{}; }}\n",
+            rep("g("),
+            rep(")")
+        ),
+        "ternary" => format!(
+            "void f(int x) {{ x = {}0; }}\n",
+            (0..d).map(|i| format!("x > {i} ? {i} : ")).collect::<String>()
+        ),
+        "macro_nest" => format!(
+            "#define M(a) (a + 1)\nvoid f(int x) {{ x = {}1{}; }}\n",
+            rep("M("),
+            rep(")")
+        ),
+        "binop" => format!("void f(int x) {{ x = 1{}; }}\n", rep(" + 1")),
+        "casts" => format!("void f(int x) {{ x = {}1; }}\n", rep("(int)")),
+        "unary" => format!("void f(int x) {{ x = {}1; }}\n", rep("- ")),
+        "index" => format!(
+            "static int arr[4];\nvoid f(int x) {{ x = {}0{}; }}\n",
+            rep("arr["),
+            rep("]")
+        ),
+        "macro_chain" => format!(
+            "#define A0 1\n{}void f(int x) {{ x = A{d}; }}\n",
+            (1..=d).map(|i| format!("#define A{i} A{}\n", i - 1)).collect::<String>()
+        ),
+        "cond_nest" => format!(
+            "{}void f(int x) {{ x = 1; }}\n{}",
+            rep("#if 1\n"),
+            rep("#endif\n")
+        ),
+        "include_chain" => {
+            for i in 1..=d {
+                let next = if i < d {
+                    format!("#include \"h{}.h\"\n", i + 1)
+                } else {
+                    String::new()
+                };
+                fs.files
+                    .insert(format!("h{i}.h"), format!("{next}static int v{i};\n"));
+            }
+            if d > 0 {
+                "#include \"h1.h\"\nvoid f(int x) { x = 1; }\n".to_string()
+            } else {
+                "void f(int x) { x = 1; }\n".to_string()
+            }
+        }
+        "include_repeat" => {
+            fs.files.insert("once.h".into(), "#pragma once\nstatic int v;\n".into());
+            format!("{}void f(int x) {{ x = 1; }}\n", rep("#include \"once.h\"\n"))
+        }
+        _ => "void f(int x) { x = 1; }\n".to_string(),
+    };
+    fs.files.insert("test.rssl".into(), main);
+    fs
 }
 
 /// Quick tier: how much of each section's universe is visited (1 in `stride`)
@@ -363,6 +448,35 @@ pub fn cases(ctx: &Ctx, section: &str, i: u64) -> Vec<Case> {
                 }
             }
             out
+        }
+        "scaling" => {
+            let family = SCALING_FAMILIES[(i / 3) as usize];
+            let target = [Target::Dx, Target::Vk, Target::Msl][(i % 3) as usize];
+            let sizes = [0usize, 4, 8, 16];
+            let fss: Vec<FsSpec> = sizes.iter().map(|d| scaling_source(family, *d)).collect();
+            let tasks: Vec<TaskSpec> = (0..sizes.len())
+                .map(|k| {
+                    let mut t = TaskSpec::compile(k, "test.rssl", target);
+                    t.no_pipeline = true;
+                    t
+                })
+                .collect();
+            vec![Case {
+                check: "C08".into(),
+                kind: "scaling".into(),
+                label: format!("scaling:{family}@{} n=0,4,8,16", target.name()),
+                fss,
+                execs: vec![ExecSpec {
+                    threads: vec![crate::exec::ThreadSpec {
+                        key: key(&mut rng),
+                        stack: STACK_MAIN,
+                        tasks,
+                    }],
+                    sched_seed: 0,
+                    schedule: None,
+                }],
+                params: crate::json::Json::obj(),
+            }]
         }
         "w3-total" => {
             let mut out = Vec::new();
